@@ -95,7 +95,7 @@ func (e *Engine) Solve(vc *FnVC, dir string, perMs int, solvers []string, agree 
 	for _, s := range solvers {
 		undecided := false
 		for _, o := range vc.obls {
-			if o.Result != "unsat" && o.Result != "sat" {
+			if o.Result != "unsat" && o.Result != "sat" && o.Unclaimed == "" {
 				undecided = true
 			}
 		}
@@ -112,6 +112,9 @@ func (e *Engine) Solve(vc *FnVC, dir string, perMs int, solvers []string, agree 
 			res.Smoke = run.smoke
 		}
 		for _, o := range vc.obls {
+			if o.Unclaimed != "" {
+				continue
+			}
 			r, ok := run.results[o.idx]
 			if !ok {
 				r = "timeout"
